@@ -23,8 +23,9 @@ CONSTANTS Type,        \* "oc" / "at" / "dcr"
           MaxChoices
 
 NumPool == << <<49, 46, 50>>, <<48, 46, 57, 46, 50, 51, 52, 50, 46, 49, 57, 50, 48, 48, 51, 48, 48, 46, 49, 48, 48, 46, 49, 46, 49>>, <<50, 46, 53, 46, 54, 46, 54>>, <<49, 46, 48>> >>
-DescrPool == << <<99, 110>>, <<99, 111, 109, 109, 111, 110, 78, 97, 109, 101>>, <<120, 45, 121>>, <<65, 49, 45>>, <<116, 111, 112>> >>
-OidPool == << DescrPool[1], NumPool[3], DescrPool[2], NumPool[2], DescrPool[3], DescrPool[4] >>
+DescrPool == << <<99, 110>>, <<99, 111, 109, 109, 111, 110, 78, 97, 109, 101>>, <<120, 45, 121>>, <<65, 49, 45>>, <<116, 111, 112>>,
+               <<67, 78>>, <<84, 111, 80>> >>      \* CN, ToP: the same descriptors in another letter case
+OidPool == << DescrPool[1], NumPool[3], DescrPool[2], NumPool[2], DescrPool[3], DescrPool[4], DescrPool[6], DescrPool[5], DescrPool[7] >>
 StrPool == << <<97>>,                                             \* a
               <<105, 116, 39, 115>>,                              \* it's
               <<67, 58, 92, 50, 55, 45, 115>>,                    \* C:\27-s   (a backslash followed by "27")
@@ -38,7 +39,10 @@ StrPool == << <<97>>,                                             \* a
               <<92, 92, 39, 39>>,                                 \* \\''
               <<88, 45, 70, 32, 39, 98, 39>>,                     \* X-F 'b'
               <<10, 8232>>,                                       \* newline, U+2028
-              <<92, 53, 99, 50, 55>> >>                           \* \5c27
+              <<92, 53, 99, 50, 55>>,                             \* \5c27
+              <<97, 32, 98>>,                                     \* "a b"
+              <<97, 32, 32, 98>>,                                 \* "a  b"   (differs from the previous one only in the number of spaces)
+              <<97, 32, 32, 32, 98>> >>                           \* "a   b"
 XNamePool == << <<79, 82, 73, 71, 73, 78>>, <<65, 66, 67, 95, 68, 69, 70, 45, 71, 72, 73>>, <<45>>, <<97>> >>
 LenPool == << <<48>>, <<49>>, <<54, 52>>, <<50, 49, 52, 55, 52, 56, 51, 54, 52, 55>>, <<52, 50, 57, 52, 57, 54, 55, 50, 57, 54>> >>
 
